@@ -367,14 +367,13 @@ def rule_never_started_kept(A, R, rule):
 
 
 # =============================================================================================
-@prop("C08")
-def check_C08(A, R, tier):
+def rule_output_attached(A, R, rule):
+    """history_output becomes Some only in the success event (named running job, never on an error path) and in the skip handler
+    (recorded value only); the failure/abort/upstream-failure handlers leave it alone"""
     C = A.classes()
     K = kinds(A)
     H = A.handler_runs()
     pts, execok, postrun = final_points(A)
-    sf = started_field(A)
-    R.info["started_field"] = A.L.ni_fields[sf]["name"] if sf is not None else None
     hf = A.L.histout_field
     # R8.1: where an output record can be attached to a job ------------------------------------------
     n = 0
@@ -392,7 +391,7 @@ def check_C08(A, R, tier):
             if entry == A.evaluator_fn("event_job_finished_success").name and label.startswith("E|"):
                 s = [x for x in A.JS if "E|" + A.sname(x) == label][0]
                 okp = s in C["Running"] and is_role(v["key"], "lookup")
-                R.ob("R8.1", "%s | %s | the reported output is attached only to the running job that was named" % (fn, A.sname(s)), okp,
+                R.ob(rule, "%s | %s | the reported output is attached only to the running job that was named" % (fn, A.sname(s)), okp,
                      detail="history_output is set for a job that is not running / not the named job", site=A.site(v))
                 # never on the path that rejects the output (EphemeralChangedOutput / any error)
                 errs = [e for e in run.by_kind("error_construct") if e["fid"] == v["fid"]]
@@ -402,7 +401,7 @@ def check_C08(A, R, tier):
                     r2 = run.taken_reachable(v["fid"], e["bb"])
                     if e["bb"] in r1 or v["bb"] in r2:
                         bad.append(e)
-                R.ob("R8.1", "%s | %s | the output is not recorded on a path that reports the job as failed" % (fn, A.sname(s)), not bad,
+                R.ob(rule, "%s | %s | the output is not recorded on a path that reports the job as failed" % (fn, A.sname(s)), not bad,
                      detail="the write of history_output and the construction of %s lie on one path" % (bad[0]["variant"] if bad else ""),
                      site=A.site(v))
             elif label.startswith("H|"):
@@ -414,21 +413,33 @@ def check_C08(A, R, tier):
                 skip_ok = bool(ws) and tos <= (C["Finished"] - C["FailedLike"]) and all(t_ not in postrun or reachable_without_running(A, t_) for t_ in tos)
                 prov = value_class(val_payload(val))
                 src_ok = all(p[0] == "hist" and p[1][0] == "job" for p in prov)
-                R.ob("R8.1", "%s | %s | a handler attaches an output only when it skips the job, and only the recorded one" % (fn, label.split("|")[1]),
+                R.ob(rule, "%s | %s | a handler attaches an output only when it skips the job, and only the recorded one" % (fn, label.split("|")[1]),
                      skip_ok and src_ok and is_role(v["key"], "sigtarget"),
                      detail="to-states %s, value provenance %s" % (A.snames(tos), sorted(map(str, prov))), site=A.site(v))
             elif v["fn"] in (A.evaluator_fn("event_job_finished_success").name, A.signal_processor().name):
                 continue    # the same site, already judged in its trace partitions
             else:
-                R.ob("R8.1", "%s | %s | no other code attaches an output to a job" % (fn, label.split("|")[0]), False,
+                R.ob(rule, "%s | %s | no other code attaches an output to a job" % (fn, label.split("|")[0]), False,
                      detail="history_output may become Some outside the success event and the skip handler", site=A.site(v))
-    R.floor("R8.1", "sites that attach an output record", n, 2)
+    R.floor(rule, "sites that attach an output record", n, 2)
     # the failure / abort handlers leave history_output alone, so a failed job has none
     for hk in (K["failure"], K["abort"], K["upfail"]):
         for s in A.JS:
             bad = [v for v in H[(hk, s)].by_kind("write_jobfield") if v["field"] == hf]
             if bad:
-                R.ob("R8.1", "%s handler | does not touch history_output" % A.kname(hk), False, site=A.site(bad[0]))
+                R.ob(rule, "%s handler | does not touch history_output" % A.kname(hk), False, site=A.site(bad[0]))
+
+
+@prop("C08")
+def check_C08(A, R, tier):
+    C = A.classes()
+    K = kinds(A)
+    H = A.handler_runs()
+    pts, execok, postrun = final_points(A)
+    sf = started_field(A)
+    R.info["started_field"] = A.L.ni_fields[sf]["name"] if sf is not None else None
+    hf = A.L.histout_field
+    rule_output_attached(A, R, "R8.1")
     rule_started_failed_dropped(A, R, "R8.2")
     rule_failed_edges_untouched(A, R, "R8.3")
     # R8.4: own records come and go in pairs
@@ -879,6 +890,21 @@ def filter_rules(A, R, fcl, nhrun):
             R.ob("R18.5", "filter | %s | decided by the superseded-multi-output filter (record of an absent job is otherwise kept)" % mname,
                  consulted and not edge and 1 in rv,
                  detail="superseded filter consulted %s, edge test %s, possible results %s" % (consulted, edge, sorted(rv)))
+    # ... and that filter drops the record whenever one of the recorded job's outputs is registered for a present job of another
+    # name -- whatever the id looks like (forced: every lookup in the output->job map hits a different job)
+    for mname, (ha, hb) in list(modes.items()) + [("own record / input-name list", (None, None))]:
+        if ha and hb:
+            continue
+        r = run_filter_mode(A, nh, fcl, ha, hb, superseded=True)
+        if ha is None:
+            # every key class at once (own records, input-name lists, per-dependency records): with, in addition, no dependency
+            # left between present jobs, nothing may be kept -- a remaining 'keep' is unconditional for some key shape
+            r = run_filter_mode(A, nh, fcl, ha, hb, superseded="no-edge")
+            R.ob("R18.5", "filter | any key, superseded and without a current dependency | no record is kept unconditionally",
+                 r["ret"] == {0}, detail="possible results %s (1 = keep): some key shape bypasses both tests" % sorted(r["ret"]))
+            continue
+        R.ob("R18.5", "filter | %s, an output of the recorded job now belongs to a present job of another name | the record is dropped" % mname,
+             r["ret"] == {0}, detail="possible results %s (1 = keep): a record of a superseded job can survive for some id" % sorted(r["ret"]))
     # own records (no separator / empty second part) also go through the superseded filter
     r = run_filter_mode(A, nh, fcl, None, None)
     R.ob("R18.5", "filter | every key class can reach the superseded filter", r["parts_get"])
@@ -943,11 +969,24 @@ def filter_rules(A, R, fcl, nhrun):
                     if h in r2:
                         okall = False
                         why = "a job can pass the filling loop without registering any output"
+        if okall:
+            # the enumeration must be complete: the nodes of the graph are not, as soon as anything removes nodes from it
+            # (jobs pruned at startup stay present jobs: they keep their id and records)
+            removes = [n for n in A.facts.order for blk in A.facts.bodies[n].blocks
+                       if blk["term"]["t"]["k"] == "call" and (M.callee_name(blk["term"]["t"]) or "").endswith("::remove_node")]
+            for (fidh, h) in heads:
+                for sy, (roles, _c) in nhrun.syms.items():
+                    if isinstance(sy, tuple) and sy[:3] == ("b", fidh, h) and "dagnodes" in roles and removes:
+                        okall = False
+                        why = ("the map is filled from the nodes of the graph, from which %s removes jobs that are still present "
+                               "(their ids stay registered, their records are kept)" % short(removes[0]))
         R.ob("R18.4", "new_history | every present job registers its outputs in the output->job map", okall, detail=why, site=A.site(v))
 
 
-def run_filter_mode(A, nh, fcl, hit_a, hit_b):
-    """analyse the filter closure alone with the two id lookups forced to hit (1) / miss (0) / free (None)"""
+def run_filter_mode(A, nh, fcl, hit_a, hit_b, superseded=False):
+    """analyse the filter closure alone with the two id lookups forced to hit (1) / miss (0) / free (None);
+    superseded: every lookup in a local map (the output->job map) finds an entry, and that entry differs from what it is
+    compared with (string equality answers 'different')"""
     from interp import Interp, Config, State
     from domain import ref, string, adt
     import models
@@ -959,6 +998,16 @@ def run_filter_mode(A, nh, fcl, hit_a, hit_b):
     def get_model(I_, state, frame, bi, t, args, span):
         res = orig(I_, state, frame, bi, t, args, span)
         a = args[0]
+        if superseded and models.self_field_of(I_, a) is None:
+            out = []
+            for (rv, st) in res:
+                if rv[0] == "adt" and 1 in dict(rv[2]):
+                    out.append((adt(rv[1], {1: dict(rv[2])[1]}), st))
+                elif rv[0] == "adt":
+                    out.append((adt(rv[1], {1: (string([("other-job",)]),)}), st))
+                else:
+                    out.append((rv, st))
+            return out
         if models.self_field_of(I_, a) == A.L.idmap_field and frame.body.name == fcl:
             lookups.append(bi)
             k = models.deref(I_, state, args[1])
@@ -980,6 +1029,22 @@ def run_filter_mode(A, nh, fcl, hit_a, hit_b):
         return res
     I.models = dict(I.models)
     I.models["std::collections::HashMap::<K, V, S, A>::get"] = get_model
+    if superseded:
+        from domain import TRUE, FALSE
+        I.models["std::cmp::PartialEq::eq"] = lambda I_, st_, fr_, bi_, t_, a_, sp_: [(FALSE, st_)]
+        I.models["std::cmp::PartialEq::ne"] = lambda I_, st_, fr_, bi_, t_, a_, sp_: [(TRUE, st_)]
+        ck = "std::collections::HashMap::<K, V, S, A>::contains_key"
+        I.models[ck] = lambda I_, st_, fr_, bi_, t_, a_, sp_: [(TRUE, st_)]
+    if superseded == "no-edge":
+        # ... and no dependency exists between two present jobs
+        ew = "petgraph::graphmap::GraphMap::<N, E, Ty>::edge_weight"
+        orig_ew = I.models[ew]
+
+        def ew_model(I_, st_, fr_, bi_, t_, a_, sp_):
+            orig_ew(I_, st_, fr_, bi_, t_, a_, sp_)
+            return [(adt("std::option::Option", {0: ()}), st_)]
+        I.models[ew] = ew_model
+        I.models["petgraph::graphmap::GraphMap::<N, E, Ty>::contains_edge"] = lambda I_, st_, fr_, bi_, t_, a_, sp_: [(FALSE, st_)]
     lookups = []
     # the closure's environment: captured references are unknown; its argument is a (&String, &String) pair
     pair = adt("tuple", {0: (string([("histkey",)]), string([("hist", frozenset([("anykey",)]))]))})
